@@ -67,7 +67,7 @@ def reply_frame(c: dict, gwy_id: str, *, code: str | None = None, verb: str | No
     return f"{v} --- {src or c['dst']} {dst or gwy_id} --:------ {code or c['code']} {len(pl) // 2:03d} {pl}"
 
 
-NEAR_KINDS = ("near-code", "near-verb", "near-src", "near-ctx", "near-dst", "other-gwy-echo", "unrelated")
+NEAR_KINDS = ("near-code", "near-verb", "near-src", "near-ctx", "near-ctx-zero", "near-dst", "other-gwy-echo", "unrelated")
 
 
 def near_miss(c: dict, gwy_id: str, kind: str) -> str | None:
@@ -95,6 +95,19 @@ def near_miss(c: dict, gwy_id: str, kind: str) -> str | None:
             return None  # no context
         else:
             alt = f"{(int(r[:2], 16) + 1) % 12:02X}" + r[2:]
+        return reply_frame(c, gwy_id, payload=alt)
+    if kind == "near-ctx-zero":  # the same reply but for index/context 00 (a value with special meaning in some codes)
+        r = c["reply"]
+        if not r or c["code"] in ("0006", "1F09", "3EF1"):
+            return None
+        if c["code"] in ("0418", "3220"):
+            alt = r[:4] + "00" + r[6:]
+        elif c["code"] == "0404":
+            return None
+        else:
+            alt = "00" + r[2:]
+        if alt == r or alt == Rig.NULL_0418:
+            return None
         return reply_frame(c, gwy_id, payload=alt)
     if kind == "other-gwy-echo":
         return cmd_frame(c).replace(HGI, "18:099999") if c["src"] == HGI else None
@@ -222,7 +235,15 @@ class Rig:
         c = self.cmds[self.case["callers"][owner]["cmd"]]
         for ev in self.case.get("script", []):  # explicit, labelled deliveries relative to a write (C06)
             if ev["caller"] == owner and ev["attempt"] == attempt:
-                self.deliver_at(t + ev["d"], ev.get("hops", 0), ev["frame"], set(ev["labels"]))
+                lbls = set(ev["labels"])
+                if ev.get("auto_label"):  # labels are computed against ALL commands of the case
+                    for spec in self.case["callers"]:
+                        c2 = self.cmds[spec["cmd"]]
+                        if ev["frame"] == reply_frame(c2, self.gwy_id):
+                            lbls.add("reply-to:" + cmd_frame(c2))
+                        if ev["frame"] == echo_frame(c2, self.gwy_id):
+                            lbls.add("echo-of:" + cmd_frame(c2))
+                self.deliver_at(t + ev["d"], ev.get("hops", 0), ev["frame"], lbls)
         if self.case.get("script_only"):
             return
         fate = self.case.get("fates", {}).get(f"{owner}:{attempt}", {"echo": {"d": 0.01, "hops": 0}, "reply": {"d": 0.03, "hops": 0}})
